@@ -418,6 +418,35 @@ fn run(ctx: &mut Ctx) {
         b.push(base[pi].clone());
         rng.shuffle(&mut b);
         inject(ctx, run, "PWB chunk bank duplicated", b, true);
+        // the pads of one chip sent twice: a second, complete PWB message that names the same chip inside its payload but
+        // travels under another chip label in its chunk headers (so it is a group of its own); long, and so short that
+        // it leaves no sample after the delay. Which group is looked at first is up to a HashMap: tried several times.
+        {
+            let (nm, chip) = (base[pi].0.clone(), base[pi].1[10]);
+            let mut cs: Vec<alpha_g_detector::padwing::Chunk> = base.iter().filter(|x| x.0 == nm && x.1[10] == chip).map(|x| super::must_chunk(&x.1)).collect();
+            cs.sort_by_key(|c| c.chunk_id());
+            let payload: Vec<u8> = cs.iter().flat_map(|c| c.payload().to_vec()).collect();
+            let used: Vec<u8> = base.iter().filter(|x| x.0 == nm).map(|x| x.1[10]).collect();
+            if let (Some(p0), Some(label)) = (crate::refs::pwb_ref(&payload), (0..4u8).find(|l| !used.contains(l))) {
+                for short in [false, true] {
+                    let mut p = p0.clone();
+                    if short {
+                        p.requested_samples = 2;
+                        for c in p.channels.iter_mut() {
+                            c.1.truncate(2);
+                        }
+                    }
+                    for _ in 0..6 {
+                        let mut b = base.clone();
+                        for c in p.chunks(cs[0].board_id().device_id(), label, 300) {
+                            b.push((nm.clone(), c.encode()));
+                        }
+                        rng.shuffle(&mut b);
+                        inject(ctx, run, if short { "pads of a chip sent twice (second message without post-delay samples)" } else { "pads of a chip sent twice (second message under another chip label)" }, b, true);
+                    }
+                }
+            }
+        }
         let mut b = base.clone();
         let other_pwb = crate::refs::PWB_BOARDS.iter().map(|x| x.0).find(|n| *n != &base[pi].0[2..]).unwrap();
         b[pi].0 = format!("PC{}", other_pwb);
